@@ -210,7 +210,7 @@ def normalise_replay(rc, text, path):
 
 IOSIM_TIERS = {
     # property: tier: (runs, extra)   extra = long runs (C08) / sweep depth (C09)
-    "C08": {"quick": (300_000, 1_500), "thorough": (6_000_000, 40_000)},
+    "C08": {"quick": (300_000, 3_000), "thorough": (6_000_000, 40_000)},
     "C09": {"quick": (60_000, 1), "thorough": (1_500_000, 2)},
 }
 
